@@ -389,12 +389,47 @@ fn gen_program(rng: &mut Rng, tag: &str, roots: usize) -> Program {
                 fields: vec![FieldDef { ident: "v".into(), kind: FieldKind::Plain { ty: Ty::U64, optional: false, name: None, unit: None, sample_group: false } }],
             });
             let pad = |n: usize, c: char| -> String { std::iter::repeat_n(c, n).collect() };
-            let mut child = Child::Struct(leaf);
             let chain: Vec<Pfx> = match shape {
                 0 => vec![Pfx::Exact(pad(total - 1, 'b'))],
                 1 => vec![Pfx::Infl(pad(total - 1, 'c'))],
                 _ => vec![Pfx::Exact(pad(total - 1 - 50, 'd')), Pfx::Exact(pad(50, 'e'))],
             };
+            push_chain(&mut g, leaf, chain);
+        }
+    }
+    // chains of three and four prefixes that pass 100 bytes early (two or more segments before the
+    // end), late, and more than once; exact, inflectable and mixed
+    for (k, lens) in [[60usize, 60, 50, 0], [50, 60, 60, 0], [5, 10, 110, 0], [110, 10, 5, 0], [40, 40, 40, 40], [101, 1, 1, 1], [1, 1, 1, 101], [99, 1, 1, 0], [30, 30, 30, 9]].iter().enumerate() {
+        for kind in 0..3 {
+            let leaf = g.p.structs.len();
+            g.p.structs.push(StructDef {
+                name: format!("S{}_{leaf}", g.tag),
+                rename_all: Style::Preserve,
+                prefix: Pfx::None,
+                mode: "",
+                fields: vec![FieldDef { ident: "value".into(), kind: FieldKind::Plain { ty: Ty::U64, optional: false, name: None, unit: None, sample_group: false } }],
+            });
+            let chain: Vec<Pfx> = lens
+                .iter()
+                .enumerate()
+                .filter(|(_, n)| **n > 0)
+                .map(|(j, n)| {
+                    let text: String = std::iter::repeat_n((b'f' + ((k + j) % 20) as u8) as char, *n - 1).chain(std::iter::once('_')).collect();
+                    if kind == 0 || (kind == 2 && j % 2 == 0) { Pfx::Exact(text) } else { Pfx::Infl(text) }
+                })
+                .collect();
+            push_chain(&mut g, leaf, chain);
+        }
+    }
+    sanitize_subfields(&mut g.p);
+    g.p
+}
+
+fn push_chain(g: &mut Gen, leaf: usize, chain: Vec<Pfx>) {
+    let mut child = Child::Struct(leaf);
+    {
+        {
+            let chain = chain;
             for prefix in chain {
                 let idx = g.p.structs.len();
                 g.p.structs.push(StructDef {
@@ -409,8 +444,6 @@ fn gen_program(rng: &mut Rng, tag: &str, roots: usize) -> Program {
             g.p.roots.push(child);
         }
     }
-    sanitize_subfields(&mut g.p);
-    g.p
 }
 
 /// `#[metrics(subfield)]` types are closed by reference, so everything inside them must be
@@ -671,7 +704,7 @@ fn ty_src(p: &Program, ty: &Ty) -> String {
     }
 }
 
-fn fields_src(p: &Program, fields: &[FieldDef], tuple_pub: bool) -> String {
+fn fields_src(p: &Program, fields: &[FieldDef], by_value: bool) -> String {
     let mut s = String::new();
     for f in fields {
         match &f.kind {
@@ -688,6 +721,11 @@ fn fields_src(p: &Program, fields: &[FieldDef], tuple_pub: bool) -> String {
                 }
                 if *sample_group {
                     a.push("sample_group".into());
+                }
+                // plain numbers and durations are values as they are: in types closed by value every
+                // other such field is declared no_close (with or without a unit), which must not change what is emitted
+                if by_value && matches!(ty, Ty::U64 | Ty::Duration) && !*optional && !*sample_group && f.ident.len() % 2 == 0 {
+                    a.push("no_close".into());
                 }
                 if !a.is_empty() {
                     let _ = writeln!(s, "    #[metrics({})]", a.join(", "));
@@ -710,7 +748,6 @@ fn fields_src(p: &Program, fields: &[FieldDef], tuple_pub: bool) -> String {
             }
         }
     }
-    let _ = tuple_pub;
     s
 }
 
@@ -732,7 +769,7 @@ fn program_src(p: &Program, instances: &[(String, String)]) -> String {
         let _ = writeln!(s, "#[metrics({extra})]\nstruct {}({unit}{});\n", d.name, ty_src(p, &d.inner));
     }
     for d in &p.structs {
-        let _ = writeln!(s, "{}\nstruct {} {{\n{}}}\n", attrs(d.rename_all, &d.prefix, d.mode, None), d.name, fields_src(p, &d.fields, false));
+        let _ = writeln!(s, "{}\nstruct {} {{\n{}}}\n", attrs(d.rename_all, &d.prefix, d.mode, None), d.name, fields_src(p, &d.fields, d.mode != "subfield"));
     }
     for d in &p.enums {
         let tag = d.tag.as_ref().map(|t| format!("tag({} = {}{})", if t.exact { "name_exact" } else { "name" }, lit(&t.name), if t.sample_group { ", sample_group" } else { "" }));
